@@ -60,7 +60,15 @@ def build(tier):
 
 
 def run_impl(built, cases, tier):
-    return G.run_impl_multi(built, cases, tier)
+    # a case of a schema that is not built in this tier (known-finding witness on FIX44 in the
+    # quick tier) is skipped on both sides
+    default = next(iter(built["exes"]))
+    have = [k for k, c in enumerate(cases) if G.schema_of(c.line, default)[0] in built["exes"]]
+    res = ["SKIP schema not built in this tier"] * len(cases)
+    out = G.run_impl_multi(built, [cases[k] for k in have], tier)
+    for k, r in zip(have, out):
+        res[k] = r
+    return res
 
 
 def postprocess(case, r):
@@ -138,9 +146,9 @@ def gen_cases(rng, tier):
     for schema in schemas(tier):
         meta = built["metas"][schema]
         px = pre(schema, default)
-        k = 4 if thorough else 1
+        k = 2 if thorough else 1
         if schema != default:
-            k = 2
+            k = 1
         gen = G.MsgGen(meta, rng)
         rich = G.MsgGen(meta, rng, p_opt=0.6)
         flat = G.MsgGen(meta, rng, p_opt=0.1, max_elems=1)
@@ -262,6 +270,22 @@ def _ctx_of(case):
     return built["metas"][schema], rest.split(" ")
 
 
+def _nondeep(meta):
+    """(owner, fnum) of the groups the owner's deep constructor does NOT pre-create (metadata
+    'G <owner> <fnum> -> <sub> 0'; vlib.codecgen.Meta drops the flag, so the dump is read again)."""
+    if not hasattr(meta, "_c11_nondeep"):
+        nd = set()
+        for a in _state["built"]["driver_args"]:
+            name, _, path = a.partition("=")
+            if name == meta.name:
+                for line in open(path):
+                    w = line.split()
+                    if len(w) == 6 and w[0] == "G" and w[5] == "0":
+                        nd.add((w[1], int(w[2])))
+        meta._c11_nondeep = nd
+    return meta._c11_nondeep
+
+
 def _getpos(meta, owner, fnum):
     t = meta.trait(owner, fnum)
     if t is None:
@@ -320,7 +344,8 @@ def c_unknown(case, r, m):
 
 def c_move_nogroup(case, r, m):
     """Negation of the hypothesis `every present group field has its _groups entry' for move_legal:
-    a decoded (shallow) source whose body holds a group count field with value <= 0."""
+    a decoded source holding a group count field with value 0 whose group object was therefore never
+    created (body groups: the decoded body is shallow; header groups the deep constructor omits)."""
     meta, w = _ctx_of(case)
     if w[0] != "DMOVE" or r != "CRASH":
         return False
@@ -329,14 +354,45 @@ def c_move_nogroup(case, r, m):
     mt = next((v.decode() for k, v in tk if k == b"35"), None)
     if mt is None:
         return False
-    gtags = set(meta.groups.get(mt, {}))
+    # the decoded body is shallow (no group object unless decode_group ran); header and trailer are
+    # always deep-constructed, which pre-creates their groups -- except the non-deep ones
+    gtags = set(meta.groups.get(mt, {})) | {f for (o, f) in _nondeep(meta) if o in ("header", "trailer")}
     for k, v in tk:
         if k.isdigit() and int(k) in gtags and v.strip(b"0") == b"":
             return True
     return False
 
 
-CLASSIFIERS = {"unordered-positions": c_unordered, "unknown-dropped": c_unknown, "move-missing-group": c_move_nogroup}
+def _holds_nondeep(meta, owner, fs):
+    nd = _nondeep(meta)
+    for f in fs:
+        if f.elems and (owner, f.fnum) in nd:
+            return True
+        sub = meta.groups.get(owner, {}).get(f.fnum)
+        if f.elems and sub and any(_holds_nondeep(meta, sub, e) for e in f.elems):
+            return True
+    return False
+
+
+def c_target_group(case, r, m):
+    """Negation of the hypothesis `the deep-constructed target has the group': copy_legal / clone of
+    a source holding elements of a group that the target's deep constructor does not pre-create
+    (FIX44 header, NoHops 627): to->find_group() is null and is dereferenced."""
+    meta, w = _ctx_of(case)
+    if r != "CRASH" or w[0] not in ("CLONE", "COPY", "DCLONE", "DCOPY"):
+        return False
+    if w[0] in ("CLONE", "COPY"):
+        mt, hdr, body, trl = G.parse_msg(w[1])
+        return (_holds_nondeep(meta, "header", hdr) or _holds_nondeep(meta, mt, body)
+                or _holds_nondeep(meta, "trailer", trl))
+    data = bytes.fromhex(w[2])
+    tk = [x.split(b"=", 1) for x in data.split(SOH) if b"=" in x]
+    tags = {f for (o, f) in _nondeep(meta)}
+    return any(k.isdigit() and int(k) in tags and v.strip(b"0") != b"" for k, v in tk)
+
+
+CLASSIFIERS = {"unordered-positions": c_unordered, "unknown-dropped": c_unknown, "move-missing-group": c_move_nogroup,
+               "target-group-missing": c_target_group}
 
 
 def nontrivial(case, r):
